@@ -43,6 +43,7 @@ impl Wf {
             ["flush"] => show(self.s.as_mut().unwrap().flush()),
             ["sync"] => show(self.s.as_mut().unwrap().sync()),
             ["rotate"] => show(self.s.as_mut().unwrap().rotate()),
+            ["close"] => show(self.s.as_mut().unwrap().close()),
             ["files"] => {
                 let segs = self.s.as_ref().unwrap().segments();
                 let parts: Vec<String> = segs
